@@ -159,6 +159,29 @@ pub(super) fn resolve_path(root: &Path, raw: &str) -> Result<PathBuf, String> {
     Ok(root.join(path))
 }
 
+/// Walker over `start` (a path inside `workspace_root`) that consults ignore files inside the
+/// workspace only: never `.ignore`/`.gitignore` files in directories above the root, never the
+/// user's global gitignore. Ignore files of the directories between the root and `start` are
+/// added explicitly so that listing a sub-directory still honours the workspace's own rules.
+pub(super) fn workspace_walk_builder(workspace_root: &Path, start: &Path) -> ignore::WalkBuilder {
+    let mut builder = ignore::WalkBuilder::new(start);
+    builder.parents(false).git_global(false);
+    let mut dir = start.parent();
+    while let Some(current) = dir {
+        if !current.starts_with(workspace_root) {
+            break;
+        }
+        for name in [".ignore", ".gitignore"] {
+            let file = current.join(name);
+            if file.is_file() {
+                let _ = builder.add_ignore(file);
+            }
+        }
+        dir = current.parent();
+    }
+    builder
+}
+
 pub(super) fn normalize_rel_path(root: &Path, path: &Path) -> String {
     let rel = path.strip_prefix(root).unwrap_or(path);
     rel.to_string_lossy().replace('\\', "/")
